@@ -229,11 +229,11 @@ class Chunk:
             target_size_mb=self.target_size_mb,
         )
 
-        if self.promised_continuity:
-            subruns_first_chunk, subruns_second_chunk = _split_runs_in_chunk(self.subruns, t)
-        else:
-            # The split will not update the subruns or superrun.
-            subruns_first_chunk = subruns_second_chunk = self.subruns
+        # Each part records the subruns it covers, over the time ranges it covers. This also holds
+        # for a chunk whose subruns do not reach its boundaries (promised_continuity is False,
+        # e.g. the first chunk after a gap between subruns): keeping all subruns on both parts
+        # would leave stale time ranges that can not be merged with the following chunks.
+        subruns_first_chunk, subruns_second_chunk = _split_runs_in_chunk(self.subruns, t)
 
         superrun_first_chunk, superrun_second_chunk = _split_runs_in_chunk(self.superrun, t)
         # If the superrun is split and the fragment cover only one run,
